@@ -890,7 +890,7 @@ func runPlan(p *Plan, trace bool, collectCover bool) *runResult {
 	for _, e := range sim.Trace {
 		res.Trace = append(res.Trace, e.String())
 	}
-	res.PreemptAt = sim.PreemptAt
+	res.PreemptAt = append([]int(nil), sim.PreemptAt...) // the simulation object is reused by the next run
 	res.pointHit = sim.PointHit
 	s1, s2, s3 := sim.Consumed()
 	res.consumed = [3]int{s1, s2, s3}
